@@ -280,6 +280,134 @@ pub fn case() -> impl Strategy<Value = Case> {
     })
 }
 
+// ---------------------------------------------------------------------------
+// Continuation rows of one benchmark: every combination of present / absent
+// throughput rows (per counter kind) and allocation sections (max alloc, alloc,
+// dealloc, grow, shrink). Samples are injected into a real `BenchContext`
+// (C05's hook), the production painter prints the leaf, and the printed rows
+// are compared with the rows the computed statistics call for: a section is
+// shown iff one of its figures is non-zero, under the benchmark it belongs to,
+// in the documented order, with the values `format_f64` / `format_bytes` /
+// `display_throughput` give for each column.
+
+use super::c05::{self, CounterSpec};
+
+fn rows_case() -> impl Strategy<Value = c05::Case> {
+    let n = || prop_oneof![3 => 1u64..=8, 2 => 1u64..=100_000, 1 => (0u32..=40).prop_map(|k| 1u64 << k)];
+    (1usize..=5).prop_flat_map(move |len| {
+        let counter = move || {
+            prop_oneof![
+                2 => Just(CounterSpec::None),
+                1 => (0u64..=1_000_000).prop_map(CounterSpec::Const),
+                1 => proptest::collection::vec(0u64..=1_000_000, len..=len).prop_map(CounterSpec::PerInput),
+            ]
+        };
+        (
+            proptest::collection::vec(prop_oneof![Just(0u128), 1u128..=50, 1u128..=5_000_000_000_000], len..=len),
+            1u32..=4,
+            0u8..32,
+            proptest::collection::vec((prop::bool::weighted(0.8), proptest::array::uniform10(n())), len..=len),
+            [counter(), counter(), counter(), counter()],
+            any::<bool>(),
+        )
+            .prop_map(|(durations, sample_size, mask, raw, counters, binary)| {
+                let allocs = raw
+                    .into_iter()
+                    .map(|(some, v)| {
+                        // Sections: bit 0..=3 grow, shrink, alloc, dealloc; bit 4 max alloc.
+                        let mut t = [(v[0], v[1]), (v[2], v[3]), (v[4], v[5]), (v[6], v[7]), (v[8], v[9])];
+                        for (k, slot) in t.iter_mut().enumerate() {
+                            if mask & (1 << k) == 0 {
+                                *slot = (0, 0);
+                            }
+                        }
+                        (some && mask != 0).then_some(t)
+                    })
+                    .collect();
+                c05::Case { sample_size, durations, allocs, counters, binary }
+            })
+    })
+}
+
+fn check_leaf_rows(c: &c05::Case) -> Verdict {
+    let (st, text) = match c05::inject_and_paint(c) {
+        Ok(r) => r,
+        Err(e) if e.starts_with("panic") => return Verdict::fail("paint-panic", format!("painting the leaf {e}")),
+        Err(e) => return Verdict::Inconclusive(e),
+    };
+    let nonzero = |a: &[f64; 4]| a.iter().any(|&x| x != 0.0);
+    // A maximum with a count but no bytes: the statement does not say whether it is shown.
+    if !nonzero(&st.max_alloc_size) && nonzero(&st.max_alloc_count) {
+        return Verdict::pass(false);
+    }
+    let mut expect: Vec<Vec<String>> = Vec::new();
+    let mut counter_rows = 0;
+    for k in 0..4 {
+        if let Some(counts) = &st.counts[k] {
+            expect.push((0..4).map(|col| pure::fmt_throughput(k, counts[col], st.time[col], c.binary)).collect());
+            counter_rows += 1;
+        }
+    }
+    let mut sections = 0;
+    let mut push_section = |expect: &mut Vec<Vec<String>>, title: &str, count: &[f64; 4], size: &[f64; 4]| {
+        expect.push(vec![title.to_string()]);
+        expect.push(count.iter().map(|&x| pure::fmt_f64(x, 4)).collect());
+        expect.push(size.iter().map(|&x| pure::fmt_bytes(x, 4, c.binary)).collect());
+    };
+    if nonzero(&st.max_alloc_size) {
+        push_section(&mut expect, "max alloc:", &st.max_alloc_count, &st.max_alloc_size);
+        sections += 1;
+    }
+    // Shown in the order alloc, dealloc, grow, shrink (stored as grow, shrink, alloc, dealloc).
+    for (title, k) in [("alloc:", 2), ("dealloc:", 3), ("grow:", 0), ("shrink:", 1)] {
+        let (count, size) = &st.alloc_tallies[k];
+        if nonzero(count) || nonzero(size) {
+            push_section(&mut expect, title, count, size);
+            sections += 1;
+        }
+    }
+    let lines: Vec<&str> = text.lines().collect();
+    if lines.is_empty() {
+        return Verdict::fail("no-output", "nothing printed".to_string());
+    }
+    let cells = |line: &str| -> Vec<String> {
+        let mut v: Vec<String> = line.split('│').map(|x| x.trim().to_string()).collect();
+        while v.last().map(|x| x.is_empty()).unwrap_or(false) {
+            v.pop();
+        }
+        v
+    };
+    let got: Vec<Vec<String>> = lines[1..].iter().map(|l| cells(l)).collect();
+    let trimmed = |rows: &[Vec<String>]| -> Vec<Vec<String>> {
+        rows.iter()
+            .map(|r| {
+                let mut r = r.clone();
+                while r.last().map(|x| x.is_empty()).unwrap_or(false) {
+                    r.pop();
+                }
+                r
+            })
+            .collect()
+    };
+    let want = trimmed(&expect);
+    if got != want {
+        let first = (0..got.len().max(want.len())).find(|&i| got.get(i) != want.get(i)).unwrap_or(0);
+        return Verdict::fail(
+            "continuation-rows",
+            format!("continuation row {first} is {:?}, the statistics call for {:?}\nstatistics: {st:?}\n--- output ---\n{text}", got.get(first), want.get(first)),
+        );
+    }
+    // Continuation rows stay inside the benchmark's block: no branch glyph, no name.
+    for l in &lines[1..] {
+        if l.contains('├') || l.contains('╰') || l.contains("bench") {
+            return Verdict::fail("malformed-tree", format!("continuation row {l:?} looks like a new tree node\n{text}"));
+        }
+    }
+    classify(format!("counter rows {counter_rows}, alloc sections {sections}"));
+    Verdict::pass(sections >= 1 && sections < 5)
+}
+
 fn groups(g: &mut Groups) {
     g.prop("twin", 24_000, 1_800_000, || case(), check_case);
+    g.prop("leaf_rows", 40_000, 2_000_000, || rows_case(), check_leaf_rows);
 }
